@@ -44,6 +44,9 @@ var verifSamples = []verifKindSample{
 	{"Discriminator", func() any { return &Discriminator{} }, `{"propertyName":"p","mapping":{"a":"#/components/schemas/A"},"x-ext":1}`, []string{"propertyName"}},
 	{"XML", func() any { return &XML{} }, `{"name":"n","namespace":"ns","prefix":"p","attribute":true,"wrapped":true,"x-ext":1}`, nil},
 	{"T", func() any { return &T{} }, verifBaseDoc, []string{"openapi", "info", "paths"}},
+	// a type list that is empty says something else than no type at all
+	{"SchemaEmptyTypes", func() any { return &Schema{} }, `{"type":[],"description":"d","properties":{"p":{"type":[]}}}`, nil},
+	{"SchemaTwoTypes", func() any { return &Schema{} }, `{"type":["integer","string"],"description":"d"}`, nil},
 	// names and values whose letter case matters to the reader of the output: they come back as written
 	{"ResponseMixedCase", func() any { return &Response{} }, `{"description":"D","headers":{"X-Rate-Limit":{"schema":{"type":"integer"}},"ETag":{"schema":{"type":"string"}}},"content":{"text/plain; charset=UTF-8":{"schema":{"type":"string"}},"application/vnd.Acme.v1+json":{"schema":{"type":"string"},"examples":{"Small":{"value":"V"}},"encoding":{"Field":{"contentType":"Text/Plain"}}},"Application/JSON":{"schema":{"type":"string"}}},"links":{"NextPage":{"operationId":"GetNext"}}}`, nil},
 	{"SecuritySchemeMixedCase", func() any { return &SecurityScheme{} }, `{"type":"http","scheme":"Bearer","bearerFormat":"JWT","description":"Use The Token"}`, nil},
